@@ -49,7 +49,7 @@ pub struct Case {
     pub xint: Vec<f64>,
 }
 
-pub const CLASSES: [&str; 13] = [
+pub const CLASSES: [&str; 14] = [
     "diagonal",
     "integer-known-solution",
     "dense-gauss",
@@ -63,8 +63,9 @@ pub const CLASSES: [&str; 13] = [
     "route-flip",
     "nearly-symmetric",
     "svd-graded",
+    "sparse",
 ];
-const GENERAL: [u8; 10] = [0, 1, 2, 3, 4, 5, 6, 7, 8, 12];
+const GENERAL: [u8; 11] = [0, 1, 2, 3, 4, 5, 6, 7, 8, 12, 13];
 const SYMINDEF: [u8; 1] = [9];
 const ROUTEFLIP: [u8; 2] = [10, 11];
 
@@ -215,6 +216,87 @@ pub fn build_case(class: u8, n: usize, k: usize, salt: u64) -> Case {
             // unstructured ill-conditioning: singular values graded to cond 10^0..10^10
             let e = rng.int(0, 10) as f64;
             build::svd_graded(&mut rng, n, e)
+        }
+        13 => {
+            // matrices with many exact zeros whose factors fill in: arrowheads, grid Laplacians, random
+            // sparse diagonally dominant matrices (symmetric ones are positive definite, so they take the
+            // Cholesky route); a factorisation that mistakes "a_ij = 0" for "l_ij = 0" is wrong here only
+            let mut a = vec![0.0; n * n];
+            let integer = rng.coin();
+            let val = |rng: &mut Rng| -> f64 {
+                if integer {
+                    rng.sign() * (1 + rng.below(3)) as f64
+                } else {
+                    rng.sign() * rng.unif_in(0.25, 2.0)
+                }
+            };
+            let symmetric = rng.below(4) != 0;
+            match rng.below(4) {
+                0 => {
+                    // arrowhead: first row/column (or a random hub) full, rest diagonal
+                    let hub = if rng.coin() { 0 } else { rng.below(n) };
+                    for i in 0..n {
+                        if i != hub {
+                            let v = val(&mut rng);
+                            a[i * n + hub] = v;
+                            a[hub * n + i] = if symmetric { v } else { val(&mut rng) };
+                        }
+                    }
+                }
+                1 => {
+                    // 5-point Laplacian of an r x c grid on the first r*c indices (the rest stays diagonal)
+                    let r = ((n as f64).sqrt().floor() as usize).max(1);
+                    let c = n / r;
+                    for gi in 0..r {
+                        for gj in 0..c {
+                            let p = gi * c + gj;
+                            if gj + 1 < c {
+                                a[p * n + p + 1] = -1.0;
+                                a[(p + 1) * n + p] = -1.0;
+                            }
+                            if gi + 1 < r {
+                                a[p * n + p + c] = -1.0;
+                                a[(p + c) * n + p] = -1.0;
+                            }
+                        }
+                    }
+                }
+                2 => {
+                    // random sparse pattern, about 2 off-diagonal entries per row
+                    for _ in 0..2 * n {
+                        let i = rng.below(n);
+                        let j = rng.below(n);
+                        if i != j {
+                            let v = val(&mut rng);
+                            a[i * n + j] = v;
+                            if symmetric {
+                                a[j * n + i] = v;
+                            }
+                        }
+                    }
+                }
+                _ => {
+                    // band of half-width w with holes inside the band
+                    let w = 1 + rng.below(4);
+                    for i in 0..n {
+                        for j in i + 1..(i + w + 1).min(n) {
+                            if rng.below(3) != 0 {
+                                let v = val(&mut rng);
+                                a[i * n + j] = v;
+                                a[j * n + i] = if symmetric { v } else if rng.coin() { 0.0 } else { val(&mut rng) };
+                            }
+                        }
+                    }
+                }
+            }
+            // strictly dominant positive diagonal (exactly representable when the entries are integers)
+            for i in 0..n {
+                let off: f64 = (0..n).filter(|j| *j != i).map(|j| a[i * n + j].abs()).sum();
+                let col: f64 = (0..n).filter(|j| *j != i).map(|j| a[j * n + i].abs()).sum();
+                let slack = if integer { (1 + rng.below(2)) as f64 } else { rng.unif_in(0.1, 1.0) };
+                a[i * n + i] = off.max(col) + slack;
+            }
+            a
         }
         11 => {
             // SPD plus an asymmetric perturbation of relative size 1e-3 .. 1e-12 in a few entries: far
@@ -527,7 +609,7 @@ pub fn run(ctx: &mut Ctx) {
     ctx.rule = "a case is (class, n, k, salt) expanded deterministically into A (n x n) and B (n x k): class in {diagonal, integer with known \
 solution, dense N(0,1), SPD Gram, SPD graded to cond 1e0..1e10, strictly diagonally dominant, permuted+scaled triangular, rows scaled by \
 10^±5, Householder·diag(graded singular values)·Householder to cond 1e10, pivot-critical (diagonal x 1e-14 / zero diagonal entries / singular leading minor / zero leading block), symmetric indefinite with \
-positive diagonal (eigen-signs verified by the oracle's Jacobi), SPD with one entry moved across the symmetry threshold, SPD plus an asymmetric perturbation of 1e-3..1e-12}; n in 1..=32 weighted \
+positive diagonal (eigen-signs verified by the oracle's Jacobi), SPD with one entry moved across the symmetry threshold, SPD plus an asymmetric perturbation of 1e-3..1e-12, sparse diagonally dominant with exact zeros (arrowhead / grid Laplacian / random pattern / band with holes; 3 in 4 symmetric, hence SPD)}; n in 1..=32 weighted \
 toward 1-9 and 8k±1; k in 1..=6; each problem also rescaled exactly by powers of two (A and B independently by 2^{0,±40,±70,±200}); plus the full (class, n) grid (each point also once rescaled) and hand-written symmetric indefinite matrices run once per entry point. All six \
 entry points run on every case. Non-trivial: n >= 2 and class != diagonal; distinct by hash of (class, n, k, entry selector, entries of A and B). \
 Cases whose oracle condition estimate exceeds 1e12 are counted under '<class>/skipped(cond>1e12)' and not evaluated."
@@ -566,7 +648,7 @@ Cases whose oracle condition estimate exceeds 1e12 are counted under '<class>/sk
             }
         }
     }
-    ctx.exhaustive.push(format!("every (class, n) pair, 13 classes x n = 1..=32, {} salt(s) each", per));
+    ctx.exhaustive.push(format!("every (class, n) pair, 14 classes x n = 1..=32, {} salt(s) each", per));
 
     let n_gen = ctx.scale(24_000, 400_000);
     ctx.run_prop_par("systems", n_gen, 16, || strat(&GENERAL), check);
